@@ -34,6 +34,8 @@ import (
 // inside an operation settles the model on whichever of {applied, not applied} the twin shows, and every history
 // ends with a full drain plus a reload probe (nothing handed out may come back). A history whose oracle fails is
 // reported and not extended, so on a tree with a defect the search reaches a fixpoint of the defect-free states.
+// Long lifetimes of one queue (hundreds of accepted batches, WAL sequence numbers across digit boundaries) are not
+// reachable by the BFS; they are covered by deterministic long runs judged at every point, see longrun_test.go.
 // Initial images: the whole search is repeated for every datastore that an EARLIER VERSION of the queue can have left
 // behind with up to 2 (thorough: 3) pending batches: WAL records keyed by the hex content hash only (the format
 // BatchQueue.Load still parses as "legacy"), see legacyImage.
@@ -796,6 +798,7 @@ type replay struct {
 	Hist   []int           `json:"hist"`
 	Conc   []explore.Point `json:"conc,omitempty"` // concurrent part: the scheduler (and crash) choices
 	CC     *concCfg        `json:"conc_cfg,omitempty"`
+	Long   *longCfg        `json:"long_run,omitempty"` // long-run part: the whole run is deterministic given its configuration
 }
 
 func TestCheck(t *testing.T) {
@@ -831,6 +834,19 @@ func TestCheck(t *testing.T) {
 		if _, err := r.LoadReplay(&rp); err != nil {
 			r.EngineError(err.Error())
 		} else {
+			if rp.Long != nil {
+				var st longStats
+				viols, eng := runLong(*rp.Long, &st)
+				fmt.Printf("replay %s: %d points, %d violations\n", *rp.Long, st.points, len(viols))
+				if eng != "" {
+					r.EngineError(eng)
+				}
+				for _, v := range viols {
+					r.Report(vf.Violation{Clause: v.clause, Tags: v.tags, Msg: v.msg, Cost: rp.Long.N, History: rp})
+				}
+				r.Finish(vf.Coverage{Evaluations: 1, DistinctNontrivial: 1})
+				return
+			}
 			if rp.CC != nil {
 				world.EnablePreLockGates()
 				explore.ReplayOne(rp.Conc, func(c *explore.Ctx) {
@@ -967,6 +983,10 @@ func TestCheck(t *testing.T) {
 		imageNames = append(imageNames, k)
 	}
 	sort.Strings(imageNames)
+	// long-run part (longrun_test.go): long lifetimes of one queue, deterministic runs, judged at every point
+	longStart := time.Now()
+	ls, longBounds := runLongRuns(r)
+	fmt.Printf("long-run part: %d runs, %d points, %d forks in %.1fs\n", ls.runs, ls.points, ls.forks, time.Since(longStart).Seconds())
 	// concurrent part (concurrent_test.go): thread programs x queue size x preloaded batches, every interleaving of
 	// the scheduling steps (or delay-bounded), each ending in a fork live-vs-restart or in a crash cut. synctest
 	// bubbles do not scale over goroutines, so the subtrees below each root execution are dealt out to processes.
@@ -989,15 +1009,18 @@ func TestCheck(t *testing.T) {
 	}
 	concBounds := concBoundsText(r.Thorough())
 	r.Finish(vf.Coverage{
-		Evaluations: total.Transitions + cr.Executions, DistinctNontrivial: total.States, States: total.States, Transitions: total.Transitions,
+		Evaluations: total.Transitions + cr.Executions + ls.points + ls.forks, DistinctNontrivial: total.States, States: total.States, Transitions: total.Transitions,
 		Rule: "SEQUENTIAL: every operation history up to the depth bound over the alphabet (submit A / B / A again with identical bytes / C, submit empty, submit under a foreign chain id, next, reload = new sequencer on the same datastore image, crash before the k-th durable write of a submit or a next followed by reload), for each queue size, executed from scratch on the real single.Sequencer over the logging datastore double; each search is run from the empty datastore AND from every datastore image an earlier version of the queue can have left behind with up to 2 (thorough 3) accepted-and-undelivered batches out of the candidate records (WAL records keyed by the hex content hash only: hashes below / above / equal to those of the batches submitted later, one sharing 7 leading zeros with the sequence-numbered keys), where the reference model takes the order of the legacy records from the first restart (any order, but a second restart, the live instance and every later reload must show the same one) and puts everything accepted later behind them; every history ends with a full drain and a reload probe; a history whose oracle fails is reported and not extended; histories are merged when volatile queue state (all BatchQueue fields, by reflection hook), durable image and reference model agree (the sequencer has no other mutable state); distinct = distinct merged states. " +
+			"LONG RUNS (no state search; lifetimes of one queue far beyond the histories of the BFS): deterministic runs on the real single.Sequencer that accept N batches (acceptance numbers 0..N-1, i.e. WAL sequence numbers across every hex/decimal digit boundary below N) with next interleaved so that the accepted-and-undelivered window [a..b] slides over all acceptance numbers with a fixed width (and one run per contents scheme without any next: window [0..k]); contents all distinct or repeating with a period (period 1: all batches byte-identical); at EVERY point of a run (after every submit and every next): (1) a sequencer reloaded from a copy of the datastore must hand out exactly the window in acceptance order and nothing after a further reload, (2) for one fresh content and for the contents of every window position (first/last 4 beyond 8) a reloaded sequencer accepts one more batch with these contents, then both its own drain and the drain of another reload of it must be window + that batch (WAL key reuse), (3) in half of the runs the reloaded instance replaces the live one at every point (sequence number recomputed from the WAL at every step), in the other half the live instance runs through; every next must return the head of the window; each run ends with a full drain and a reload probe; a run stops at its first failing point. " +
 			"CONCURRENT: for each thread program (submitters and a consumer calling the real Sequencer), queue size 1-3 and 0/1 batch carried over a restart beforehand: every interleaving (for the larger programs: every interleaving within the delay bound) of the threads' scheduling steps, where the start of an operation, the ENTRY of every Lock() of the queue mutex (also when it is free, so whatever an operation evaluates before taking the lock is a step of its own), a wait for the held mutex and every datastore operation are scheduling points. An execution that runs to quiescence is forked: the live instance is drained AND a sequencer restarted on a copy of the datastore is drained; oracle = concurrent history + live drain linearizable w.r.t. a bounded exactly-once FIFO (porcupine), restarted instance hands out the same batches in the same order as the live one (WAL == in-memory queue), nothing comes back after a further restart. With crash cuts, additionally at every scheduling point the process is killed with calls in flight and a sequencer restarted on the datastore as it is: for some fate of each in-flight call (not applied / applied / a submission also: applied in memory only), completed calls + crash + restart drain must be linearizable",
 		Exhaustive: complete && len(caps) == 0, Caps: caps,
 		Bounds: map[string]any{"depth": depth, "state_space_fixpoint_reached": fixpoint, "queue_sizes": bounds, "alphabet": len(acts), "per_queue_size": perBound,
 			"legacy_images": map[string]any{"records_per_image": fmt.Sprintf("0..%d (at most the queue size)", maxLegacy), "candidate_records": names(legacyCands), "content_hashes": map[string]string{"X": hashHex[idX], "Y": hashHex[idY], "Z": hashHex[idZ], "A": hashHex[idA]},
 				"images": imageNames, "depth": legacyDepth, "states": legacyStates, "transitions": legacyTransitions, "per_queue_size_and_image": perImage},
+			"long_runs":  longBounds,
 			"concurrent": map[string]any{"queue_sizes": []int{1, 2, 3}, "preloaded_batches_carried_over_a_restart": []int{0, 1}, "crash_cuts_per_execution": "at most 1", "thread_programs": concBounds}},
 		Extra: map[string]any{"concurrent_executions": cr.Executions, "concurrent_decision_points": cr.Points, "concurrent_processes": cr.Shards, "concurrent_per_thread_program": concPer, "concurrent_samples": cr.Samples,
+			"long_runs":            map[string]any{"runs": ls.runs, "points_judged": ls.points, "reloads": ls.reloads, "resubmission_forks": ls.forks, "batches_accepted": ls.accepted, "batches_delivered_by_live_instances": ls.delivered, "highest_acceptance_number": ls.maxSeq},
 			"submissions_accepted": accepted, "submissions_rejected": rejected, "batches_delivered_in_histories": delivered, "crashes_injected": crashes},
 	})
 }
